@@ -193,7 +193,8 @@ def decide(prop, tier='quick', rlimit=None):
                         violations.append(dict(fn=name, clause=None, msg='failing input not listed in known_findings.txt', src=None, rendered=key, props=[prop], file='replay/finder.rs', line=0, cid=f"{name}/bounded-dynamic[{key}]", unit='finder', kind='contract'))
                 if res['found']:
                     violations.append(dict(fn=name, clause=None, msg='a failing input was found by running the real code', src=None, rendered=json.dumps(res.get('input')),
-                                           props=[prop], file='replay/finder.rs', line=0, cid=f"{name}/bounded-dynamic", unit='finder', kind='contract'))
+                                           props=[prop], file='replay/finder.rs', line=0, cid=f"{name}/bounded-dynamic", unit='finder', kind='contract',
+                                           witness=dict(found=True, finder=name, input=res.get('input'), cmd=res['cmd'])))
                 elif not res['completed']:
                     infra.append(f"[finder] {name} did not finish: {res.get('note', '')[-300:]}")
     else:
@@ -227,12 +228,13 @@ def decide(prop, tier='quick', rlimit=None):
             seenv.add(v['cid'])
             safe = ''.join(ch if ch.isalnum() else '_' for ch in v['cid'])[:120]
             path = os.path.join(REPLAY_OUT, f"{prop}-{safe}.json")
-            witness = None
-            try:
-                from . import witness as wit
-                witness = wit.find(prop, v)
-            except Exception as e:  # the finder never decides anything
-                witness = dict(found=False, note=f"witness finder unavailable: {e!r}")
+            witness = v.get('witness')
+            if witness is None:
+                try:
+                    from . import witness as wit
+                    witness = wit.find(prop, v)
+                except Exception as e:  # the finder never decides anything
+                    witness = dict(found=False, note=f"witness finder unavailable: {e!r}")
             # A failed PROOF STEP (loop invariant, hint assertion, lemma precondition inside a hint) means the proof no longer
             # goes through; that alone does not show the contract is violated (hoisting a condition out of a loop is enough).
             # Where the obligation has an executable twin and its exhaustive small-input search through the real code finds
